@@ -23,7 +23,7 @@ Definition is_return_merge (n : pnode) : bool :=
 (* the three kinds of edge the property allows *)
 Inductive edge_kind (g : cfg) (i j : nat) (ci : cnode) : Prop :=
 | FallThrough : j = S i -> is_return (cn ci) = false -> is_unconditional_jump (cn ci) = false -> edge_kind g i j ci
-| Target : forall l, jumps_to (cn ci) = Some l -> is_return_merge (cn ci) = false ->
+| Target : forall l, jumps_to (cn ci) = Some l ->
                      find_label (wv l) (gnodes g) 0 = Some j -> edge_kind g i j ci
 | RetMerge : forall fid f, is_return_merge (cn ci) = true -> In fid (cfuncs ci) ->
                            nth_opt (gfuncs g) fid = Some f -> j = fexit f -> nexts ci = [j] -> edge_kind g i j ci.
